@@ -198,6 +198,15 @@ class VUnb(Val):
         return 'VUnb(%s,%r)' % (self.bound, self.val)
 
 
+class VPoison(Val):
+    """a loop-scratch variable at the loop head: its old value is of another type and must not be read"""
+    def __repr__(self):
+        return 'VPoison'
+
+
+POISON = VPoison()
+
+
 class VRef(Val):
     def __init__(self, rid):
         self.rid = rid
